@@ -169,6 +169,10 @@ class V:
         if isinstance(n, (int, numpy.integer)):
             n = int(n)
             assert n >= 0
+            if len(self.t) == 1 and n > 3:
+                # a single monomial: multiply the exponents, raise the coefficient (x**65535 in one step)
+                (m, c), = self.t.items()
+                return V({frozenset((name, e * n) for name, e in m): c ** n}, self.shape)
             r = V.const(numpy.ones(self.shape, dtype=object))
             for _ in range(n):
                 r = r * self
